@@ -1,0 +1,77 @@
+//! Verification hooks (feature `verif-hooks`, default off). Additive only.
+//!
+//! `verif_turn` performs one iteration of the `Raft::run` loop body without blocking:
+//! the biased `select!` is replaced by the same priority order evaluated with
+//! `try_recv` (due tick > internal event > client command > inbound event), followed by the
+//! same three `process_*` calls. Everything it calls is the production code.
+
+use tokio::time::Instant;
+
+use super::Raft;
+use crate::Result;
+use crate::TypeConfig;
+
+impl<T> Raft<T>
+where
+    T: TypeConfig,
+{
+    /// One non-blocking iteration of the `run()` loop body.
+    /// Returns Ok(false) when no arm of the select would have been ready.
+    pub async fn verif_turn(&mut self) -> Result<bool> {
+        if Instant::now() >= self.role.next_deadline() {
+            let internal_event_tx = &self.internal_event_tx;
+            let event_tx = &self.event_tx;
+            if let Err(e) = self.role.tick(internal_event_tx, event_tx, &self.ctx).await {
+                tracing::error!("tick failed: {:?}", e);
+            }
+        } else if let Ok(internal_event) = self.internal_event_rx.try_recv() {
+            self.buffered_internal_event.push_back(internal_event);
+            self.drain_internal_events().await?;
+        } else if let Ok(first_cmd) = self.cmd_rx.try_recv() {
+            self.role.push_client_cmd(first_cmd, &self.ctx);
+            self.drain_client_cmds().await?;
+        } else if let Ok(inbound_event) = self.event_rx.try_recv() {
+            self.buffered_inbound_event.push_back(inbound_event);
+            self.drain_inbound_events().await?;
+        } else {
+            return Ok(false);
+        }
+
+        self.process_internal_events().await?;
+        self.process_client_cmds().await?;
+        self.process_inbound_events().await?;
+        Ok(true)
+    }
+
+    /// Make the current role's timer due now (the next `verif_turn` will tick).
+    pub fn verif_expire_timer(&mut self) {
+        self.role.verif_expire_timer();
+    }
+
+    /// Same as the start of `run()`: re-arm an already expired timer.
+    pub fn verif_rearm_timer_if_expired(&mut self) {
+        if self.role.is_timer_expired() {
+            self.role.reset_timer();
+        }
+    }
+
+    /// Mirror of the shutdown arm of `run()`.
+    pub async fn verif_shutdown_arm(&mut self) {
+        use crate::RaftLog;
+        self.ctx.storage.raft_log.close().await;
+        self.event_rx.close();
+    }
+
+    /// Deadline of the current role's timer.
+    pub fn verif_next_deadline(&self) -> Instant {
+        self.role.next_deadline()
+    }
+
+    /// Number of events buffered but not yet processed (should be 0 between turns).
+    pub fn verif_buffered(&self) -> (usize, usize) {
+        (
+            self.buffered_internal_event.len(),
+            self.buffered_inbound_event.len(),
+        )
+    }
+}
